@@ -229,6 +229,21 @@ def impl_ignore_line_ranges(mods, source):
     return [(a, b) for (a, b, _) in physical_lines(source) if core.has_ignore_comment(source, core.Range(a, b))]
 
 
+def impl_ignore_probes(mods, source, max_lines=16):
+    """Answers of the REAL core.has_ignore_comment on probe ranges of every physical line: its first and last
+    character, the insertion points at its first column, before its terminator and at its end (for the last line
+    that is the end of the text).  The model's scheduler-side test (SchedModel.ignored on SubstModel.sched_ilines)
+    must give the same answers."""
+    core = mods["core"]
+    probes = {}
+    for (a, b, text) in physical_lines(source)[:max_lines]:
+        body_end = a + len(text.rstrip("\r\n"))
+        for r in ((a, a + 1), (b - 1, b), (a, a), (body_end, body_end), (b, b), (a, b)):
+            if r not in probes and 0 <= r[0] <= r[1] <= len(source):
+                probes[r] = bool(core.has_ignore_comment(source, core.Range(*r)))
+    return sorted(probes.items())
+
+
 def overlaps(a, b):
     return a[0] < b[1] and b[0] < a[1]
 
@@ -488,6 +503,18 @@ ATOMIC = (ast.Name, ast.Constant, ast.Call, ast.Attribute, ast.Subscript, ast.Li
           ast.ListComp, ast.SetComp, ast.DictComp, ast.GeneratorExp, ast.Tuple)
 
 
+def _can_lose_precedence(text) -> bool:
+    """Is the text an expression whose top node is an operator application (or anything we cannot classify)?"""
+    t = text.strip()
+    try:
+        node = ast.parse(t, mode="eval").body
+    except (SyntaxError, ValueError):
+        return True
+    if isinstance(node, ast.Tuple):
+        return not (t.startswith("(") and t.endswith(")"))
+    return not isinstance(node, ATOMIC)
+
+
 def _parenthesised_variants(mods, case):
     """None unless the output of sub() is exactly what pasting the unparenthesised texts at the
     expected matches gives (same tree; or the source when that text does not parse).  Otherwise
@@ -514,10 +541,14 @@ def _parenthesised_variants(mods, case):
             filled = re.sub(r"\{\{(\w+)\}\}", lambda m: fill(binds[m.group(1)]), repl)
             first, nl, rest = textwrap.dedent(filled).partition("\n")
             return first + nl + textwrap.indent(rest, " " * ind)
-        plain, par = placed(lambda t: t), placed(lambda t: "(" + t + ")")
+        # parentheses are put around texts that can lose to their context only: an atom (name, literal, call,
+        # display ...) has no precedence to lose -- a brace of a set display merging with the brace of an
+        # f-string field is not a precedence matter
+        plain, par = placed(lambda t: t), placed(lambda t: "(" + t + ")" if _can_lose_precedence(t) else t)
         text_p = text_p[:r[0]] + plain + text_p[r[1]:]
         text_a = text_a[:r[0]] + par + text_a[r[1]:]
-        text_b = text_b[:r[0]] + ("(" + par + ")" if isinstance(root, ast.expr) else par) + text_b[r[1]:]
+        whole = isinstance(root, ast.expr) and _can_lose_precedence(plain)
+        text_b = text_b[:r[0]] + ("(" + par + ")" if whole else par) + text_b[r[1]:]
 
     def d(t):
         try:
@@ -1070,12 +1101,13 @@ def g_subn_case(case, ms, rec, mods=None) -> str:
     sched = glist([f"({gz(g)}, {gz(t)}, {gz(s)}, {gz(e)}, {gtext(n)})" for (g, t, s, e, n) in rec["sched"]])
     il = glist([g_range(r) for r in impl_ignore_line_ranges(mods, source)])
     coms = gopt(tokenizer_verdict(source), lambda cs: glist([f"{c}%nat" for c in cs]))
+    probes = glist([f"({g_range(r)}, {gbool(v)})" for r, v in impl_ignore_probes(mods, source)])
     equiv = glist([f"({gtext(a)}, {gtext(b)}, {gbool(v)})" for (a, b), v in rec.get("equiv", {}).items()])
     n = rec["n"] if rec["n"] is not None else -1
     wraps = glist([g_range(r) for r in wrap_ranges(source, rec)])
     texts = {t for (_, _, a, b, t) in rec["sched"]} | {source[a:b] for (_, _, a, b, _) in rec["sched"]}
     mlstr = glist([gtext(t) for t in sorted(texts) if string_literal_lines(t)])
-    return (f"(mkSubn {gtext(source)} {gtext(repl)} {gz(count)} {matches} {valid} {equiv} {wraps} {mlstr} {coms} {il} "
+    return (f"(mkSubn {gtext(source)} {gtext(repl)} {gz(count)} {matches} {valid} {equiv} {wraps} {mlstr} {coms} {il} {probes} "
             f"{items} "
             f"{sched} {gtext(rec['cand'])} {gz(n)})")
 
